@@ -262,14 +262,14 @@ func init() {
 						if isNullish(inputVal.DefaultValue) {
 							return nil, nil
 						}
-						astVal := astFromValue(inputVal.DefaultValue, inputVal)
+						astVal := astFromValue(inputVal.DefaultValue, inputVal.Type)
 						return printer.Print(astVal), nil
 					}
 					if inputVal, ok := p.Source.(*InputObjectField); ok {
 						if inputVal.DefaultValue == nil {
 							return nil, nil
 						}
-						astVal := astFromValue(inputVal.DefaultValue, inputVal)
+						astVal := astFromValue(inputVal.DefaultValue, inputVal.Type)
 						return printer.Print(astVal), nil
 					}
 					return nil, nil
@@ -733,8 +733,48 @@ func astFromValue(value interface{}, ttype Type) ast.Value {
 		return val
 	}
 
-	if valueVal.Type().Kind() == reflect.Map {
-		// TODO: implement astFromValue from Map to Value
+	if enumType, ok := ttype.(*Enum); ok {
+		// the configured default is the enum's internal value; its literal is the name
+		if name, ok := enumType.Serialize(value).(string); ok {
+			return ast.NewEnumValue(&ast.EnumValue{
+				Value: name,
+			})
+		}
+		return nil
+	}
+
+	if objType, ok := ttype.(*InputObject); ok && valueVal.Type().Kind() == reflect.Map && valueVal.Type().Key().Kind() == reflect.String {
+		fieldMap := objType.Fields()
+		fieldNames := make([]string, 0, len(fieldMap))
+		for fieldName := range fieldMap {
+			fieldNames = append(fieldNames, fieldName)
+		}
+		sort.Strings(fieldNames)
+		fields := []*ast.ObjectField{}
+		for _, fieldName := range fieldNames {
+			fieldVal := valueVal.MapIndex(reflect.ValueOf(fieldName).Convert(valueVal.Type().Key()))
+			if !fieldVal.IsValid() {
+				continue
+			}
+			fieldAST := astFromValue(fieldVal.Interface(), fieldMap[fieldName].Type)
+			if fieldAST == nil {
+				continue
+			}
+			fields = append(fields, ast.NewObjectField(&ast.ObjectField{
+				Name:  ast.NewName(&ast.Name{Value: fieldName}),
+				Value: fieldAST,
+			}))
+		}
+		return ast.NewObjectValue(&ast.ObjectValue{
+			Fields: fields,
+		})
+	}
+
+	if scalarType, ok := ttype.(*Scalar); ok {
+		// print the external form of the value (what a client would write)
+		if serialized := scalarType.Serialize(value); !isNullish(serialized) {
+			value = serialized
+		}
 	}
 
 	if value, ok := value.(bool); ok {
